@@ -39,7 +39,75 @@ def _is_type_expr(repo: Repo, f: FuncInfo, e: ast.AST) -> Optional[str]:
     return None
 
 
-def rule_conform(repo: Repo, rid: str = "C06.conform", only_funcs: Optional[Iterable[str]] = None, floor: int = 5) -> RuleResult:
+LAYER_ALLOWED = {
+    "PDDLType": "the type itself",
+    "create_type_hierarchy_graph": "exports the declared tree",
+    "DomainParser.parse_types": "builds the tree",
+    "DomainExporter.write_types": "prints the declared parent of each type",
+    "Domain.shallow_copy": "copies types",
+}
+
+
+def rule_layering(repo: Repo, rid: str = "C06.layering") -> RuleResult:
+    r = RuleResult(rid, "only PDDLType (and the code that builds / prints the declared tree) walks .parent links; everything else asks is_sub_type",
+                   "every place that checks or ranges over types uses the one closure")
+    n_funcs = 0
+    for f in repo.all_funcs():
+        short = f.qn.split("::", 1)[1]
+        if f.cls == "PDDLType" or short in LAYER_ALLOWED:
+            continue
+        n_funcs += 1
+        te = repo.types(f)
+        for n in ast.walk(f.node):
+            if isinstance(n, ast.Attribute) and n.attr == "parent" and te.typeof(n.value) == ("cls", "PDDLType"):
+                r.site(L.site(f, n, "parent access"))
+                r.fail(Finding(rid, f, "parent-walk-outside-type", f"{unparse(n)} walks the type tree by hand instead of asking is_sub_type: a second, private "
+                               f"notion of conformance (easily off by one at the root or at the type itself)", node=n))
+    r.site(f"{n_funcs} functions outside the type layer scanned")
+    r.ok({"functions_scanned": n_funcs, "allowed": LAYER_ALLOWED})
+    r.require_sites(1)
+    return r
+
+
+def rule_range(repo: Repo, rid: str, spec: str, guarded_callees) -> RuleResult:
+    """the quantifier range: the per-object work is reachable only when is_sub_type(object type, quantified type) is true"""
+    r = RuleResult(rid, f"{spec}: an object is in the range of the quantifier iff its type is a subtype of the quantified type",
+                   "forall ranges over every object of the type and its subtypes")
+    f = repo.func(spec)
+    p = L.prov(repo, f)
+    g = C.cfg_of(f.node)
+    atoms = {}
+    for c in L.calls_in(f.node):
+        if isinstance(c.func, ast.Attribute) and c.func.attr == "is_sub_type" and len(c.args) == 1:
+            if any("attr:quantified_type" in x for x in p.trace(c.args[0])) and any("attr:type" in x for x in p.trace(c.func.value)):
+                atoms[id(c)] = c
+    r.site(f.qn)
+    work = [c for c in L.calls_in(f.node) if callee_name(c) in guarded_callees]
+    if not work:
+        raise AnalysisError(f"{spec}: per-object work ({guarded_callees}) not found")
+    if not atoms:
+        r.fail(Finding(rid, f, "range-not-subtype", "the range of the quantifier is not decided by <object type>.is_sub_type(<quantified type>)"))
+        return r
+    G = L.Guards(f, lambda e: "sub" if id(e) in atoms else None)
+    seen_f = G.reach({"sub": False})
+    seen_t = G.reach({"sub": True})
+    wn = {g.node_containing(c) for c in work}
+    if (wn & seen_f) or not (wn <= seen_t):
+        r.fail(Finding(rid, f, "range-guard", "the per-object work is reachable for an object whose type is not a subtype of the quantified type (or unreachable for one that is)"))
+    else:
+        r.ok({"range": "object.type.is_sub_type(quantified_type)"})
+    # the loop ranges over all problem objects
+    loops = [n for n in ast.walk(f.node) if isinstance(n, ast.For) and any("problem_objects" in "/".join(x) for x in p.trace(n.iter))]
+    r.site(f.qn + " [all objects]")
+    if loops and not any(any(s.startswith("slice:") or s.startswith("arg0:filter") for s in x) for x in p.trace(loops[0].iter)):
+        r.ok({"iterates": unparse(loops[0].iter, 60)})
+    else:
+        r.fail(Finding(rid, f, "range-objects", "the quantifier does not range over all problem objects"))
+    r.require_sites(2)
+    return r
+
+
+def rule_conform(repo: Repo, rid: str = "C06.conform", only_funcs: Optional[Iterable[str]] = None, floor: int = 3) -> RuleResult:
     r = RuleResult(rid, "conformance of an object's type to a required type is decided by is_sub_type, never by ==/!= on types or type names",
                    "forall / fact checking range over the type and its subtypes")
     funcs = repo.all_funcs() if only_funcs is None else [repo.func(x) for x in only_funcs]
@@ -56,10 +124,7 @@ def rule_conform(repo: Repo, rid: str = "C06.conform", only_funcs: Optional[Iter
             if isinstance(n, ast.Call) and isinstance(n.func, ast.Attribute) and n.func.attr == "is_sub_type":
                 r.site(L.site(f, n, "subtype test"))
                 r.ok({"function": f.qn, "test": unparse(n)})
-    if only_funcs is None:
-        r.require_sites(floor)
-    else:
-        r.require_sites(1)
+    r.require_sites(floor if only_funcs is None else min(floor, 1))
     return r
 
 
@@ -416,5 +481,7 @@ def rule_root(repo: Repo) -> RuleResult:
 
 def rules(repo: Repo, tier: str) -> List[RuleResult]:
     from . import c01
-    return [c01.rule_typedlist(repo, "C06.typedlist", ["DomainParser.parse_types"], lookup_required=False), rule_conform(repo), rule_direction(repo), rule_closure(repo), rule_identity(repo), rule_parentlink(repo),
+    return [c01.rule_typedlist(repo, "C06.typedlist", ["DomainParser.parse_types"], lookup_required=False), rule_conform(repo), rule_layering(repo),
+            rule_range(repo, "C06.range", "Operator._apply_universal_effects", ("GroundedEffect",)),
+            rule_range(repo, "C06.range", "GroundedPrecondition._validate_universal_precondition", ("_ground_universal_condition",)), rule_direction(repo), rule_closure(repo), rule_identity(repo), rule_parentlink(repo),
             rule_walk(repo), rule_root(repo)]
